@@ -72,7 +72,7 @@ fn observe<S: BuildHasher>(it: &Interner<NonZeroU32, S>, model: &Model, strs: &[
 }
 
 /// Recorded, not judged (the property does not say which numbers are used): whether keys are 1, 2, 3, ...
-fn record_incidentals<S: BuildHasher>(it: &Interner<NonZeroU32, S>, model: &Model, acc: &mut Acc) {
+fn record_incidentals<S: BuildHasher>(_it: &Interner<NonZeroU32, S>, model: &Model, acc: &mut Acc) {
     let consecutive = model.iter().enumerate().all(|(i, m)| m.1.get() as usize == i + 1);
     acc.class(if consecutive { "interner: keys are 1, 2, 3, ... in order of first interning" } else { "interner: keys are not consecutive from 1 (recorded, not judged)" });
 }
